@@ -37,6 +37,7 @@ import "bytes"
 func init() {
 	vfRegister("VerifC01_history", VerifC01_history)
 	vfRegister("VerifC01_resize", VerifC01_resize)
+	vfRegister("VerifC01_gaps", VerifC01_gaps)
 }
 
 // c01field builds one header field. Symbolic strings are at most 2 bytes (never Huffman coded: the Huffman form
@@ -135,6 +136,16 @@ type c01state struct {
 	twoNonEmpty bool
 	// events for the vacuity markers
 	evTwo, evAdd, evResize, evIndexed, evHuff bool
+	// sizeCap != 0: sizes passed to the two setters are assumed <= sizeCap (VerifC01_gaps)
+	sizeCap uint32
+}
+
+func (s *c01state) size(label string) uint32 {
+	v := vfU32(label)
+	if s.sizeCap != 0 {
+		vfAssume(v <= s.sizeCap)
+	}
+	return v
 }
 
 func c01new() *c01state {
@@ -225,7 +236,7 @@ func (s *c01state) step(op int, kinds []int) {
 	case 1:
 		s.endBlock()
 	case 2:
-		v := vfU32("max")
+		v := s.size("max")
 		s.e.SetMaxDynamicTableSize(v)
 		s.d.SetAllowedMaxDynamicTableSize(v)
 		s.lowM = vfIteU32(et.maxSize < s.lowM, et.maxSize, s.lowM)
@@ -233,7 +244,7 @@ func (s *c01state) step(op int, kinds []int) {
 			s.evResize = true
 		}
 	case 3:
-		s.e.SetMaxDynamicTableSizeLimit(vfU32("limit"))
+		s.e.SetMaxDynamicTableSizeLimit(s.size("limit"))
 	}
 	s.low = vfIteU32(et.maxSize < s.low, et.maxSize, s.low)
 	if op != 1 {
@@ -299,6 +310,52 @@ func VerifC01_resize() {
 	s := c01new()
 	for _, op := range []int{0, 1, 3, 3, 2, 2, 0, 1} {
 		s.step(op, []int{0})
+	}
+	if s.evTwo {
+		vfReach("two-size-updates")
+	}
+	if s.evResize {
+		vfReach("evict-on-resize")
+	}
+	vfReach("end")
+}
+
+// VerifC01_gaps: several blocks of one field each with a gap of size changes before every block:
+//
+//	quick:    gap(2), field, end, gap(2), field, end
+//	thorough: gap(3), field, end, gap(1), field, end   or   gap(2), field, end, gap(1), field, end, gap(1), field, end
+//
+// gap(n) = n calls, each max(v) or limit(v). Every setter of every gap is chosen (max / limit) and every size is
+// symbolic, so the minimum-size bookkeeping of one gap (shrink and re-grow, through either setter) is followed by
+// further blocks that refill the table and by a later gap whose bookkeeping must start afresh: a size update left
+// over from an earlier, already signalled gap would make the decoder evict entries the encoder keeps. Fields are of
+// kind 0 (34 bytes each); sizes are <= 127 (what matters is their order relative to each other and to
+// 34 / 68 / 102 = one, two, three entries).
+func VerifC01_gaps() {
+	gaps := []int{2, 2}
+	if vfTier() > 0 {
+		if vfChoice("plan", 2) == 0 {
+			gaps = []int{3, 1} // {3, 3} and three blocks with gaps of 2 are > 2*10^5 paths / 10^6 solver queries
+		} else {
+			gaps = []int{2, 1, 1}
+		}
+	}
+	s := c01new()
+	s.sizeCap = 127
+	reref := false
+	for b, n := range gaps {
+		for g := 0; g < n; g++ {
+			s.step(2+vfChoice("setter", 2), nil)
+		}
+		nents := len(s.e.dynTab.table.ents)
+		s.step(0, []int{0})
+		if b > 0 && nents > 0 && s.evIndexed {
+			reref = true
+		}
+		s.step(1, nil)
+	}
+	if reref {
+		vfReach("entry-survives-gap-and-is-referenced")
 	}
 	if s.evTwo {
 		vfReach("two-size-updates")
